@@ -151,6 +151,15 @@ func reflectWitnesses() []*descriptorpb.FileDescriptorSet {
 	}
 	out = append(out, wFile([]string{depValidate}, nil,
 		wMsg("M", wField("tags", 1, kString, wRepeated(), ign(1)), wField("tag", 2, kString, ign(0)))))
+	// 14: flatten nested four deep, two leaves (of different kinds) in the innermost message, and a
+	// sibling after each flattened field (seeded change C18-m4 built the nested paths with append on
+	// a shared backing array: from the third level on every leaf got the last leaf's number)
+	out = append(out, wFile([]string{depJ5}, nil,
+		wMsg("L0", wField("l1", 1, kMessage, wType("wt.v1.L1"), flattenOpt()), wField("a0", 2, kString)),
+		wMsg("L1", wField("l2", 1, kMessage, wType("wt.v1.L2"), flattenOpt()), wField("a1", 2, kInt32)),
+		wMsg("L2", wField("l3", 3, kMessage, wType("wt.v1.L3"), flattenOpt()), wField("a2", 4, kBool)),
+		wMsg("L3", wField("l4", 2, kMessage, wType("wt.v1.L4"), flattenOpt()), wField("a3", 5, kString)),
+		wMsg("L4", wField("x", 1, kString), wField("y", 2, kInt64), wField("z", 3, kBool))))
 	return out
 }
 
@@ -197,5 +206,19 @@ func loopWitnesses() []loopWitness {
 			Dependency:  []string{"shared/v1/topic/payload.proto"},
 			MessageType: []*descriptorpb.DescriptorProto{wMsg("Envelope", wField("payload", 1, kMessage, wType("shared.v1.topic.Payload")))}},
 	}}})
+	// 3: enum option info under a key the enum's info_fields do not declare, and option info on an
+	// enum without info_fields (seeded change C15-m5 copied only the declared keys on import)
+	shade := wEnum("Shade", "SHADE_UNSPECIFIED", "SHADE_DARK")
+	for _, v := range shade.Value {
+		v.Options = &descriptorpb.EnumValueOptions{}
+		proto.SetExtension(v.Options, ext_j5pb.E_EnumValue, &ext_j5pb.EnumValueOptions{Info: map[string]string{"hex": "101010", "pantone": "19-4005"}})
+	}
+	shade.Options = &descriptorpb.EnumOptions{}
+	proto.SetExtension(shade.Options, ext_j5pb.E_Enum, &ext_j5pb.EnumOptions{InfoFields: []*ext_j5pb.EnumInfoField{{Name: "hex", Label: "Hex"}}})
+	bare := wEnum("Bare", "BARE_UNSPECIFIED", "BARE_ONE")
+	bare.Value[1].Options = &descriptorpb.EnumValueOptions{}
+	proto.SetExtension(bare.Value[1].Options, ext_j5pb.E_EnumValue, &ext_j5pb.EnumValueOptions{Info: map[string]string{"note": "n"}})
+	add(wFile([]string{depJ5}, []*descriptorpb.EnumDescriptorProto{shade, bare},
+		wMsg("M", wField("s", 1, kEnum, wType("wt.v1.Shade")), wField("b", 2, kEnum, wType("wt.v1.Bare")))))
 	return out
 }
